@@ -56,6 +56,7 @@ def instances(tier):
         out.append({"kind": "flapping", "gen": g})
         out.append({"kind": "held_commands", "gen": g})
         out.append({"kind": "error_text_lost", "gen": g})
+        out.append({"kind": "stale_buffered_frame", "gen": g})
     return out
 
 
@@ -80,6 +81,8 @@ def run(ctx, p):
         return _held_commands(ctx, p)
     if p["kind"] == "error_text_lost":
         return _error_text_lost(ctx, p)
+    if p["kind"] == "stale_buffered_frame":
+        return _stale_buffered_frame(ctx, p)
     return _group_silence(ctx, p)
 
 
@@ -262,6 +265,63 @@ def _group_silence_reconnect(ctx, p):
         ok = len(reqs) == 4 and _b(sym_and(*[a == b for a, b in zip(reqs, exp)]))
         ctx.check(ok, "at4.group_poll_after_300s", detail={"requests": [str(t) for t in reqs], "expected": [str(t) for t in exp]})
         ctx.check(len(rig.net.conns) == 2 and not rig.task_failures(), "refresh.requests_first", detail="connections / task failure")
+    for lab in expect_labels("quick"):
+        ctx.reach(lab)
+
+
+def _stale_buffered_frame(ctx, p):
+    """Two status frames arrive in one segment; a subscriber takes 125 ms over the first, so the second stays buffered on the
+    old connection. Meanwhile a command hits a write error (free instant): the client reconnects and refreshes - the
+    console has moved on. The model shows the refreshed state, not the frame left over on the abandoned connection."""
+    import asyncio
+    import importlib
+    A = importlib.import_module("pyairtouch.api")
+    g = Gen(p["gen"])
+    inst = Installation.simple(g.n, n_acs=2, zones_per_ac=2)
+    t_cmd = 1.0 + ctx.real("dt", 0, 0.125, lo_strict=True)
+    with ApiRig(ctx, g, inst) as rig:
+        con = rig.console
+        armed = {"on": False}
+        rig.net.on_drain = lambda conn, n: (ConnectionResetError("write fault") if armed.pop("on", False) else None)
+        rig.start()
+        rig.run(0.5)
+        ctx.check(rig.init_result is True, "refresh.model_converges", detail="handshake failed")
+
+        async def slow(_id):
+            await asyncio.sleep(0.125)
+
+        rig.zone(0).subscribe(slow)
+
+        def zrec(n, pct):
+            return r4.build_group_status(n, 1, 1, pct, 0, 1, 22, 1, 730, 0) if g.n == 4 else r5.build_zone_status(n, 1, 1, pct, 120, 1, 730, 0, 0)
+
+        def burst():
+            keep = dict(inst.zone_status)
+            inst.zone_status = {0: zrec(0, 45)}
+            a = con.zone_status_frame(pid=0x6B, only=[0])
+            inst.zone_status = {2: zrec(2, 95)}                 # the frame that stays buffered: zone 2 at 95 %
+            b = con.zone_status_frame(pid=0x6C, only=[2])
+            inst.zone_status = keep
+            inst.zone_status[0] = zrec(0, 45)
+            inst.zone_status[2] = zrec(2, 10)                   # by the time of the refresh the console reports zone 2 at 10 %
+            rig.net.current().send(bytes(int(x) for x in a) + bytes(int(x) for x in b))
+
+        async def cmd():
+            armed["on"] = True
+            try:
+                await rig.ac(0).set_power(A.AcPowerControl.TURN_ON)
+            except Exception:  # noqa: BLE001
+                pass
+
+        rig.loop.vt_call_at(1.0, burst)
+        rig.loop.vt_call_at(t_cmd, lambda: rig.spawn(cmd()))
+        rig.run(t_cmd + 5.0)
+        z2 = rig.zone(2)
+        detail = {"zone2_damper": str(z2.current_damper_percentage), "conns": len(rig.net.conns), "requests": con.kinds()[-6:]}
+        ctx.observe("damper", z2.current_damper_percentage)
+        ctx.check(len(rig.net.conns) == 2, "refresh.requests_first", detail=detail)
+        ctx.check(z2.current_damper_percentage == 10, "refresh.model_converges", detail=detail)
+        ctx.check(not rig.task_failures(), "refresh.requests_first", detail="unhandled exception")
     for lab in expect_labels("quick"):
         ctx.reach(lab)
 
